@@ -320,6 +320,9 @@ def run(ck):
     ck.rule('C05.d', 'the gates themselves: C01.b (validator relation), C01.e (set path), C02.a/b (block write order and overlay) re-evaluated as obligations of this property')
     ck.not_decided += ['the invariant over arbitrary histories with user callbacks as such', 'out-of-band corruption patterns beyond decode -> validate -> default']
     R = Regs(ck)
+    ck.rule('C05.f', 'a refused checked operation (bit set / clear, block write, sanitise) leaves nothing behind in the table object: the constraint verdict of a later operation does not depend on earlier refusals')
+    from .regs import refusals_leave_no_trace
+    refusals_leave_no_trace(R, 'C05.f', ('register_bit_set', 'register_bit_clear', 'register_block_write', 'ra_malformed_write', 'register_sanitise'))
     R.validate_pure = True
     rule_a(ck, R)
     scan_rule(R, 'C05.c', 'register_sanitise', 'entries')
